@@ -16,6 +16,37 @@
 static IMB_MGR *M;
 static const hx_variant *V;
 static long nitems;
+/* --guard 1 (C07): jobs are built with their objects flush against inaccessible pages, the direct calls read the guarded
+ * source objects and write into guarded destinations of exactly the message length */
+static int g_guard, g_place = GA_SLACK;
+#define IN_OF(j) ((g_guard && !(j)->sp.inplace && !(j)->src_written_ok) ? (const uint8_t *) (j)->src : (const uint8_t *) (j)->src_snapshot)
+/* a fault inside a direct library call is the library's (hx_in_call tells the signal handler) */
+#define LIBCALL(x)                                                                                     \
+        do {                                                                                           \
+                hx_in_call = g_guard;                                                                  \
+                x;                                                                                     \
+                hx_in_call = 0;                                                                        \
+        } while (0)
+#define LIBVAL(x)                                                                                      \
+        ({                                                                                             \
+                hx_in_call = g_guard;                                                                  \
+                __typeof__(x) v_ = (x);                                                                \
+                hx_in_call = 0;                                                                        \
+                v_;                                                                                    \
+        })
+static void *
+out_alloc(size_t n)
+{
+        if (!g_guard)
+                return calloc(1, n + 64);
+        return ga_alloc(n ? n : 1, 1, g_place, "direct_out", 0);
+}
+static void
+out_free(void *p)
+{
+        if (!g_guard)
+                free(p);
+}
 
 static void
 guard_fail(const char *what, int sig)
@@ -104,7 +135,7 @@ static int
 job_result(const char *kind, hx_spec *sp, hx_job *j)
 {
         (void) kind;
-        sp->placement = GA_SLACK;
+        sp->placement = g_place;
         if (hx_job_build(M, sp, 1, j) != 0)
                 return -100;
         IMB_JOB *slot = IMB_GET_NEXT_JOB(M);
@@ -187,7 +218,7 @@ quic_all(hx_rng *g, int reps)
                                         r = IMB_FLUSH_JOB(M);
                                 if (!r || r->status != IMB_STATUS_COMPLETED)
                                         st = r ? (int) r->status : -1;
-                                src[i] = js[i].src_snapshot;
+                                src[i] = IN_OF(&js[i]);
                                 iv[i] = js[i].iv;
                                 aad[i] = js[i].aad;
                                 len[i] = js[i].sp.len;
@@ -237,9 +268,9 @@ quic_all(hx_rng *g, int reps)
                         DECLARE_ALIGNED(uint8_t ek[15 * 16], 16);
                         DECLARE_ALIGNED(uint8_t dk[15 * 16], 16);
                         if (kl == 16)
-                                IMB_AES_KEYEXP_128(M, key, ek, dk);
+                                LIBCALL(IMB_AES_KEYEXP_128(M, key, ek, dk));
                         else
-                                IMB_AES_KEYEXP_256(M, key, ek, dk);
+                                LIBCALL(IMB_AES_KEYEXP_256(M, key, ek, dk));
                         hx_call((void *) imb_quic_hp_aes_ecb, 6, (uint64_t) M, (uint64_t) ek, (uint64_t) dp, (uint64_t) sp_, (uint64_t) n,
                                 (uint64_t) kl);
                         int same = imb_get_errno(M) == 0;
@@ -299,17 +330,17 @@ direct_all(hx_rng *g, int reps)
                         sp.ivlen = 12;
                         sp.inplace = 0;
                         int st = job_result(kind, &sp, &j);
-                        uint8_t *out = malloc(sp.len + 1), tag[16];
+                        uint8_t *out = out_alloc(sp.len), tag[16];
                         struct gcm_context_data ctx;
                         const struct gcm_key_data *gk = j.tmpl.enc_keys;
-                        const uint8_t *in = j.src_snapshot + sp.coff;
+                        const uint8_t *in = IN_OF(&j) + sp.coff;
                         aes_gcm_enc_dec_t fn = sp.dir == IMB_DIR_ENCRYPT
                                                        ? (sp.kl == 16 ? M->gcm128_enc : sp.kl == 24 ? M->gcm192_enc : M->gcm256_enc)
                                                        : (sp.kl == 16 ? M->gcm128_dec : sp.kl == 24 ? M->gcm192_dec : M->gcm256_dec);
                         fn(gk, &ctx, out, in, sp.len, j.iv, j.aad, sp.aadlen, tag, sp.taglen);
                         int same = (sp.len == 0 || memcmp(out, j.dst, sp.len) == 0) && memcmp(tag, j.tag, sp.taglen) == 0;
                         log_direct("gcm_enc_dec", kind, 1, same, st);
-                        free(out);
+                        out_free(out);
                         hx_job_free(&j);
                 }
                 /* --- GHASH --- */
@@ -319,7 +350,7 @@ direct_all(hx_rng *g, int reps)
                         int st = job_result("+GHASH", &sp, &j);
                         uint8_t tag[16];
                         memcpy(tag, j.tmpl.u.GHASH._init_tag, 16);
-                        IMB_GHASH(M, j.tmpl.u.GHASH._key, j.src_snapshot + sp.hoff, sp.hlen, tag, 16);
+                        LIBCALL(IMB_GHASH(M, j.tmpl.u.GHASH._key, IN_OF(&j) + sp.hoff, sp.hlen, tag, 16));
                         log_direct("ghash", "+GHASH", 1, memcmp(tag, j.tag, 16) == 0, st);
                         hx_job_free(&j);
                 }
@@ -335,7 +366,7 @@ direct_all(hx_rng *g, int reps)
                                       : it % 5 == 2 ? M->sha256
                                       : it % 5 == 3 ? M->sha384
                                                     : M->sha512;
-                        f(j.src_snapshot + sp.hoff, sp.hlen, dg);
+                        LIBCALL(f(IN_OF(&j) + sp.hoff, sp.hlen, dg));
                         log_direct("sha", kind, 1, memcmp(dg, j.tag, sp.taglen) == 0, st);
                         hx_job_free(&j);
                 }
@@ -351,7 +382,7 @@ direct_all(hx_rng *g, int reps)
                                            M->crc24_lte_a,        M->crc24_lte_b,     M->crc16_x25,
                                            M->crc16_fp_data,      M->crc11_fp_header, M->crc10_iuup_data,
                                            M->crc8_wimax_ofdma_hcs, M->crc7_fp_header, M->crc6_iuup_header };
-                        uint32_t c = f[k](j.src_snapshot + sp.hoff, sp.hlen);
+                        uint32_t c = LIBVAL(f[k](IN_OF(&j) + sp.hoff, sp.hlen));
                         uint32_t t = (uint32_t) j.tag[0] | ((uint32_t) j.tag[1] << 8) | ((uint32_t) j.tag[2] << 16) |
                                      ((uint32_t) j.tag[3] << 24);
                         log_direct("crc", ks[k], 1, c == t, st);
@@ -364,7 +395,7 @@ direct_all(hx_rng *g, int reps)
                         sp.inplace = 0;
                         int st = job_result("CFB128E", &sp, &j);
                         uint8_t out[16];
-                        IMB_AES128_CFB_ONE(M, out, j.src_snapshot + sp.coff, j.iv, j.tmpl.enc_keys, 16);
+                        LIBCALL(IMB_AES128_CFB_ONE(M, out, IN_OF(&j) + sp.coff, j.iv, j.tmpl.enc_keys, 16));
                         log_direct("cfb_one", "CFB128E", 1, memcmp(out, j.dst, 16) == 0, st);
                         hx_job_free(&j);
                 }
@@ -384,8 +415,8 @@ direct_all(hx_rng *g, int reps)
                                         st = -1;
                                 keys[i] = zj[i].tmpl.enc_keys;
                                 ivs[i] = zj[i].iv;
-                                srcs[i] = zj[i].src_snapshot;
-                                dsts[i] = malloc(zj[i].sp.len + 64);
+                                srcs[i] = IN_OF(&zj[i]);
+                                dsts[i] = out_alloc(zj[i].sp.len);
                                 lens[i] = zj[i].sp.len;
                         }
                         const void *keys2[32], *ivs2[32], *srcs2[32];
@@ -397,23 +428,23 @@ direct_all(hx_rng *g, int reps)
                         memcpy(dsts2, dsts, sizeof(dsts2));
                         memcpy(lens2, lens, sizeof(lens2));
                         if (n == 1)
-                                IMB_ZUC_EEA3_1_BUFFER(M, keys[0], ivs[0], srcs[0], dsts[0], lens[0]);
+                                LIBCALL(IMB_ZUC_EEA3_1_BUFFER(M, keys[0], ivs[0], srcs[0], dsts[0], lens[0]));
                         else if (n == 4)
-                                IMB_ZUC_EEA3_4_BUFFER(M, keys2, ivs2, srcs2, dsts2, lens2);
+                                LIBCALL(IMB_ZUC_EEA3_4_BUFFER(M, keys2, ivs2, srcs2, dsts2, lens2));
                         else
-                                IMB_ZUC_EEA3_N_BUFFER(M, keys2, ivs2, srcs2, dsts2, lens2, (uint32_t) n);
+                                LIBCALL(IMB_ZUC_EEA3_N_BUFFER(M, keys2, ivs2, srcs2, dsts2, lens2, (uint32_t) n));
                         for (int i = 0; i < n; i++) {
                                 if (memcmp(dsts[i], zj[i].dst, lens[i]) != 0)
                                         same = 0;
-                                free(dsts[i]);
+                                out_free(dsts[i]);
                                 hx_job_free(&zj[i]);
                         }
                         log_direct(n == 1 ? "zuc_eea3_1" : n == 4 ? "zuc_eea3_4" : "zuc_eea3_n", "ZUC128E", n, same, st);
                         hx_spec_from_kind("+ZUCEIA3", g, &sp);
                         int st2 = job_result("+ZUCEIA3", &sp, &j);
                         uint32_t tag = 0;
-                        IMB_ZUC_EIA3_1_BUFFER(M, j.tmpl.u.ZUC_EIA3._key, j.tmpl.u.ZUC_EIA3._iv, j.src_snapshot + sp.hoff,
-                                              (uint32_t) j.tmpl.msg_len_to_hash_in_bits, &tag);
+                        LIBCALL(IMB_ZUC_EIA3_1_BUFFER(M, j.tmpl.u.ZUC_EIA3._key, j.tmpl.u.ZUC_EIA3._iv, IN_OF(&j) + sp.hoff,
+                                              (uint32_t) j.tmpl.msg_len_to_hash_in_bits, &tag));
                         log_direct("zuc_eia3_1", "+ZUCEIA3", 1, memcmp(&tag, j.tag, 4) == 0, st2);
                         hx_job_free(&j);
                 }
@@ -433,15 +464,15 @@ direct_all(hx_rng *g, int reps)
                                 if (job_result("SNOW3GE", &sp, &zj[i]) != IMB_STATUS_COMPLETED)
                                         st = -1;
                                 ivs[i] = zj[i].iv;
-                                srcs[i] = zj[i].src_snapshot;
-                                dsts[i] = malloc(zj[i].sp.len + 64);
+                                srcs[i] = IN_OF(&zj[i]);
+                                dsts[i] = out_alloc(zj[i].sp.len);
                                 lens[i] = zj[i].sp.len;
                         }
                         (void) kseed;
                         /* the N-buffer call takes one key: use each job's own key in a 1-buffer call when
                          * n == 1, otherwise re-run the jobs' inputs under the first job's key both ways */
                         if (n == 1) {
-                                IMB_SNOW3G_F8_1_BUFFER(M, zj[0].tmpl.enc_keys, ivs[0], srcs[0], dsts[0], lens[0]);
+                                LIBCALL(IMB_SNOW3G_F8_1_BUFFER(M, zj[0].tmpl.enc_keys, ivs[0], srcs[0], dsts[0], lens[0]));
                                 same = memcmp(dsts[0], zj[0].dst, lens[0]) == 0;
                         } else {
                                 /* the n-buffer calls may reorder/advance the arrays they are given */
@@ -452,27 +483,27 @@ direct_all(hx_rng *g, int reps)
                                 memcpy(srcs2, srcs, sizeof(srcs2));
                                 memcpy(dsts2, dsts, sizeof(dsts2));
                                 memcpy(lens2, lens, sizeof(lens2));
-                                IMB_SNOW3G_F8_N_BUFFER(M, zj[0].tmpl.enc_keys, ivs2, srcs2, dsts2, lens2, (uint32_t) n);
+                                LIBCALL(IMB_SNOW3G_F8_N_BUFFER(M, zj[0].tmpl.enc_keys, ivs2, srcs2, dsts2, lens2, (uint32_t) n));
                                 for (int i = 0; i < n; i++) {
-                                        uint8_t *one = malloc(lens[i] + 64);
-                                        IMB_SNOW3G_F8_1_BUFFER(M, zj[0].tmpl.enc_keys, ivs[i], srcs[i], one, lens[i]);
+                                        uint8_t *one = out_alloc(lens[i]);
+                                        LIBCALL(IMB_SNOW3G_F8_1_BUFFER(M, zj[0].tmpl.enc_keys, ivs[i], srcs[i], one, lens[i]));
                                         if (memcmp(one, dsts[i], lens[i]) != 0)
                                                 same = 0;
-                                        free(one);
+                                        out_free(one);
                                 }
                                 if (memcmp(dsts[0], zj[0].dst, lens[0]) != 0)
                                         same = 0;
                         }
                         for (int i = 0; i < n; i++) {
-                                free(dsts[i]);
+                                out_free(dsts[i]);
                                 hx_job_free(&zj[i]);
                         }
                         log_direct(n == 1 ? "snow3g_f8_1" : "snow3g_f8_n", "SNOW3GE", n, same, st);
                         hx_spec_from_kind("+SNOW3GUIA2", g, &sp);
                         int st2 = job_result("+SNOW3GUIA2", &sp, &j);
                         uint8_t tag[4];
-                        IMB_SNOW3G_F9_1_BUFFER(M, j.tmpl.u.SNOW3G_UIA2._key, j.tmpl.u.SNOW3G_UIA2._iv,
-                                               j.src_snapshot + sp.hoff, j.tmpl.msg_len_to_hash_in_bits, tag);
+                        LIBCALL(IMB_SNOW3G_F9_1_BUFFER(M, j.tmpl.u.SNOW3G_UIA2._key, j.tmpl.u.SNOW3G_UIA2._iv,
+                                               IN_OF(&j) + sp.hoff, j.tmpl.msg_len_to_hash_in_bits, tag));
                         log_direct("snow3g_f9_1", "+SNOW3GUIA2", 1, memcmp(tag, j.tag, 4) == 0, st2);
                         hx_job_free(&j);
                 }
@@ -492,12 +523,12 @@ direct_all(hx_rng *g, int reps)
                                 if (job_result("KASUMIE", &sp, &zj[i]) != IMB_STATUS_COMPLETED)
                                         st = -1;
                                 memcpy(&ivs[i], zj[i].iv, 8);
-                                srcs[i] = zj[i].src_snapshot;
-                                dsts[i] = malloc(zj[i].sp.len + 64);
+                                srcs[i] = IN_OF(&zj[i]);
+                                dsts[i] = out_alloc(zj[i].sp.len);
                                 lens[i] = zj[i].sp.len;
                         }
                         if (n == 1) {
-                                IMB_KASUMI_F8_1_BUFFER(M, zj[0].tmpl.enc_keys, ivs[0], srcs[0], dsts[0], lens[0]);
+                                LIBCALL(IMB_KASUMI_F8_1_BUFFER(M, zj[0].tmpl.enc_keys, ivs[0], srcs[0], dsts[0], lens[0]));
                                 same = memcmp(dsts[0], zj[0].dst, lens[0]) == 0;
                         } else {
                                 uint64_t ivs2[32];
@@ -508,26 +539,26 @@ direct_all(hx_rng *g, int reps)
                                 memcpy(srcs2, srcs, sizeof(srcs2));
                                 memcpy(dsts2, dsts, sizeof(dsts2));
                                 memcpy(lens2, lens, sizeof(lens2));
-                                IMB_KASUMI_F8_N_BUFFER(M, zj[0].tmpl.enc_keys, ivs2, srcs2, dsts2, lens2, (uint32_t) n);
+                                LIBCALL(IMB_KASUMI_F8_N_BUFFER(M, zj[0].tmpl.enc_keys, ivs2, srcs2, dsts2, lens2, (uint32_t) n));
                                 for (int i = 0; i < n; i++) {
-                                        uint8_t *one = malloc(lens[i] + 64);
-                                        IMB_KASUMI_F8_1_BUFFER(M, zj[0].tmpl.enc_keys, ivs[i], srcs[i], one, lens[i]);
+                                        uint8_t *one = out_alloc(lens[i]);
+                                        LIBCALL(IMB_KASUMI_F8_1_BUFFER(M, zj[0].tmpl.enc_keys, ivs[i], srcs[i], one, lens[i]));
                                         if (memcmp(one, dsts[i], lens[i]) != 0)
                                                 same = 0;
-                                        free(one);
+                                        out_free(one);
                                 }
                                 if (memcmp(dsts[0], zj[0].dst, lens[0]) != 0)
                                         same = 0;
                         }
                         for (int i = 0; i < n; i++) {
-                                free(dsts[i]);
+                                out_free(dsts[i]);
                                 hx_job_free(&zj[i]);
                         }
                         log_direct(n == 1 ? "kasumi_f8_1" : "kasumi_f8_n", "KASUMIE", n, same, st);
                         hx_spec_from_kind("+KASUMIUIA1", g, &sp);
                         int st2 = job_result("+KASUMIUIA1", &sp, &j);
                         uint8_t tag[4];
-                        IMB_KASUMI_F9_1_BUFFER(M, j.tmpl.u.KASUMI_UIA1._key, j.src_snapshot + sp.hoff, sp.hlen, tag);
+                        LIBCALL(IMB_KASUMI_F9_1_BUFFER(M, j.tmpl.u.KASUMI_UIA1._key, IN_OF(&j) + sp.hoff, sp.hlen, tag));
                         log_direct("kasumi_f9_1", "+KASUMIUIA1", 1, memcmp(tag, j.tag, 4) == 0, st2);
                         hx_job_free(&j);
                 }
@@ -598,16 +629,17 @@ nbuf_all(hx_rng *g, int reps)
                                         st = -1;
                                 keys[i] = zj[i].tmpl.u.ZUC_EIA3._key;
                                 ivs[i] = zj[i].tmpl.u.ZUC_EIA3._iv;
-                                srcs[i] = zj[i].src_snapshot + zj[i].sp.hoff;
+                                srcs[i] = IN_OF(&zj[i]) + zj[i].sp.hoff;
                                 bits[i] = (uint32_t) zj[i].tmpl.msg_len_to_hash_in_bits;
                                 tags[i] = 0;
-                                tagp[i] = &tags[i];
+                                tagp[i] = g_guard ? (uint32_t *) ga_alloc(4, 4, g_place, "direct_tag", 0) : &tags[i];
                         }
-                        IMB_ZUC_EIA3_N_BUFFER(M, keys, ivs, srcs, bits, tagp, (uint32_t) n);
+                        LIBCALL(IMB_ZUC_EIA3_N_BUFFER(M, keys, ivs, srcs, bits, tagp, (uint32_t) n));
                         for (int i = 0; i < n; i++) {
                                 uint32_t one = 0;
-                                IMB_ZUC_EIA3_1_BUFFER(M, zj[i].tmpl.u.ZUC_EIA3._key, zj[i].tmpl.u.ZUC_EIA3._iv,
-                                                      zj[i].src_snapshot + zj[i].sp.hoff, bits[i], &one);
+                                tags[i] = *tagp[i];
+                                LIBCALL(IMB_ZUC_EIA3_1_BUFFER(M, zj[i].tmpl.u.ZUC_EIA3._key, zj[i].tmpl.u.ZUC_EIA3._iv,
+                                                      IN_OF(&zj[i]) + zj[i].sp.hoff, bits[i], &one));
                                 if (memcmp(&tags[i], zj[i].tag, 4) != 0 || one != tags[i]) {
                                         same = 0;
                                         if (getenv("NBUF_DEBUG")) {
@@ -638,22 +670,22 @@ nbuf_all(hx_rng *g, int reps)
                                         st = -1;
                                 keys[i] = zj[i].tmpl.enc_keys;
                                 ivs[i] = zj[i].iv;
-                                srcs[i] = zj[i].src_snapshot;
+                                srcs[i] = IN_OF(&zj[i]);
                                 lens[i] = zj[i].sp.len;
-                                dsts[i] = calloc(1, lens[i] + 64);
+                                dsts[i] = out_alloc(lens[i]);
                         }
                         void *dkeep[32];
                         uint32_t lkeep[32];
                         memcpy(dkeep, dsts, sizeof(dkeep));
                         memcpy(lkeep, lens, sizeof(lkeep));
                         if (n == 4 && (it & 1))
-                                IMB_ZUC_EEA3_4_BUFFER(M, keys, ivs, srcs, dsts, lens);
+                                LIBCALL(IMB_ZUC_EEA3_4_BUFFER(M, keys, ivs, srcs, dsts, lens));
                         else
-                                IMB_ZUC_EEA3_N_BUFFER(M, keys, ivs, srcs, dsts, lens, (uint32_t) n);
+                                LIBCALL(IMB_ZUC_EEA3_N_BUFFER(M, keys, ivs, srcs, dsts, lens, (uint32_t) n));
                         for (int i = 0; i < n; i++) {
                                 if (memcmp(dkeep[i], zj[i].dst, lkeep[i]) != 0)
                                         same = 0;
-                                free(dkeep[i]);
+                                out_free(dkeep[i]);
                                 hx_job_free(&zj[i]);
                         }
                         log_direct("zuc_eea3_n_struct", "ZUC128E", n, same, st);
@@ -675,11 +707,11 @@ nbuf_all(hx_rng *g, int reps)
                                 if (job_result("SNOW3GE", &sp, &zj[i]) != IMB_STATUS_COMPLETED)
                                         st = -1;
                                 ivs[i] = zj[i].iv;
-                                srcs[i] = zj[i].src_snapshot;
+                                srcs[i] = IN_OF(&zj[i]);
                                 keys[i] = zj[i].tmpl.enc_keys;
                                 lens[i] = zj[i].sp.len;
-                                dsts[i] = calloc(1, lens[i] + 64);
-                                dmk[i] = calloc(1, lens[i] + 64);
+                                dsts[i] = out_alloc(lens[i]);
+                                dmk[i] = out_alloc(lens[i]);
                         }
                         const void *k0 = zj[0].tmpl.enc_keys;
                         const void *ivs2[32], *srcs2[32], *keys2[32];
@@ -692,25 +724,25 @@ nbuf_all(hx_rng *g, int reps)
                         const char *fn = "snow3g_f8_n_struct";
                         if (n == 2) {
                                 fn = "snow3g_f8_2";
-                                IMB_SNOW3G_F8_2_BUFFER(M, k0, ivs[0], ivs[1], srcs[0], dsts[0], lens[0], srcs[1], dsts[1], lens[1]);
+                                LIBCALL(IMB_SNOW3G_F8_2_BUFFER(M, k0, ivs[0], ivs[1], srcs[0], dsts[0], lens[0], srcs[1], dsts[1], lens[1]));
                         } else if (n == 4) {
                                 fn = "snow3g_f8_4";
-                                IMB_SNOW3G_F8_4_BUFFER(M, k0, ivs[0], ivs[1], ivs[2], ivs[3], srcs[0], dsts[0], lens[0], srcs[1], dsts[1],
-                                                       lens[1], srcs[2], dsts[2], lens[2], srcs[3], dsts[3], lens[3]);
+                                LIBCALL(IMB_SNOW3G_F8_4_BUFFER(M, k0, ivs[0], ivs[1], ivs[2], ivs[3], srcs[0], dsts[0], lens[0], srcs[1], dsts[1],
+                                                       lens[1], srcs[2], dsts[2], lens[2], srcs[3], dsts[3], lens[3]));
                         } else if (n == 8) {
                                 fn = "snow3g_f8_8";
-                                IMB_SNOW3G_F8_8_BUFFER(M, k0, ivs[0], ivs[1], ivs[2], ivs[3], ivs[4], ivs[5], ivs[6], ivs[7], srcs[0],
+                                LIBCALL(IMB_SNOW3G_F8_8_BUFFER(M, k0, ivs[0], ivs[1], ivs[2], ivs[3], ivs[4], ivs[5], ivs[6], ivs[7], srcs[0],
                                                        dsts[0], lens[0], srcs[1], dsts[1], lens[1], srcs[2], dsts[2], lens[2], srcs[3],
                                                        dsts[3], lens[3], srcs[4], dsts[4], lens[4], srcs[5], dsts[5], lens[5], srcs[6],
-                                                       dsts[6], lens[6], srcs[7], dsts[7], lens[7]);
+                                                       dsts[6], lens[6], srcs[7], dsts[7], lens[7]));
                         } else
-                                IMB_SNOW3G_F8_N_BUFFER(M, k0, ivs2, srcs2, dsts2, lens2, (uint32_t) n);
+                                LIBCALL(IMB_SNOW3G_F8_N_BUFFER(M, k0, ivs2, srcs2, dsts2, lens2, (uint32_t) n));
                         for (int i = 0; i < n; i++) {
-                                uint8_t *one = malloc(lens[i] + 64);
-                                IMB_SNOW3G_F8_1_BUFFER(M, k0, ivs[i], srcs[i], one, lens[i]);
+                                uint8_t *one = out_alloc(lens[i]);
+                                LIBCALL(IMB_SNOW3G_F8_1_BUFFER(M, k0, ivs[i], srcs[i], one, lens[i]));
                                 if (memcmp(one, dsts[i], lens[i]) != 0)
                                         same = 0;
-                                free(one);
+                                out_free(one);
                         }
                         if (memcmp(dsts[0], zj[0].dst, lens[0]) != 0)
                                 same = 0;
@@ -722,15 +754,15 @@ nbuf_all(hx_rng *g, int reps)
                         memcpy(lens2, lens, sizeof(lens2));
                         memcpy(keys2, keys, sizeof(keys2));
                         if (n == 8)
-                                IMB_SNOW3G_F8_8_BUFFER_MULTIKEY(M, (const snow3g_key_schedule_t *const *) keys2, ivs2, srcs2, dsts2, lens2);
+                                LIBCALL(IMB_SNOW3G_F8_8_BUFFER_MULTIKEY(M, (const snow3g_key_schedule_t *const *) keys2, ivs2, srcs2, dsts2, lens2));
                         else
-                                IMB_SNOW3G_F8_N_BUFFER_MULTIKEY(M, (const snow3g_key_schedule_t *const *) keys2, ivs2, srcs2, dsts2, lens2,
-                                                                (uint32_t) n);
+                                LIBCALL(IMB_SNOW3G_F8_N_BUFFER_MULTIKEY(M, (const snow3g_key_schedule_t *const *) keys2, ivs2, srcs2, dsts2, lens2,
+                                                                (uint32_t) n));
                         for (int i = 0; i < n; i++) {
                                 if (memcmp(dmk[i], zj[i].dst, lens[i]) != 0)
                                         samemk = 0;
-                                free(dsts[i]);
-                                free(dmk[i]);
+                                out_free(dsts[i]);
+                                out_free(dmk[i]);
                                 hx_job_free(&zj[i]);
                         }
                         log_direct(n == 8 ? "snow3g_f8_8_multikey" : "snow3g_f8_n_multikey", "SNOW3GE", n, samemk, st);
@@ -753,9 +785,9 @@ nbuf_all(hx_rng *g, int reps)
                                 if (job_result("KASUMIE", &sp, &zj[i]) != IMB_STATUS_COMPLETED)
                                         st = -1;
                                 memcpy(&ivs[i], zj[i].iv, 8);
-                                srcs[i] = zj[i].src_snapshot;
+                                srcs[i] = IN_OF(&zj[i]);
                                 lens[i] = zj[i].sp.len;
-                                dsts[i] = calloc(1, lens[i] + 64);
+                                dsts[i] = out_alloc(lens[i]);
                         }
                         const void *k0 = zj[0].tmpl.enc_keys;
                         uint64_t ivs2[32];
@@ -769,31 +801,31 @@ nbuf_all(hx_rng *g, int reps)
                         const char *fn = "kasumi_f8_n_struct";
                         if (n == 1) {
                                 fn = "kasumi_f8_1_bit";
-                                IMB_KASUMI_F8_1_BUFFER_BIT(M, k0, ivs[0], srcs[0], dsts[0], lens[0] * 8, 0);
+                                LIBCALL(IMB_KASUMI_F8_1_BUFFER_BIT(M, k0, ivs[0], srcs[0], dsts[0], lens[0] * 8, 0));
                         } else if (n == 2) {
                                 fn = "kasumi_f8_2";
-                                IMB_KASUMI_F8_2_BUFFER(M, k0, ivs[0], ivs[1], srcs[0], dsts[0], lens[0], srcs[1], dsts[1], lens[1]);
+                                LIBCALL(IMB_KASUMI_F8_2_BUFFER(M, k0, ivs[0], ivs[1], srcs[0], dsts[0], lens[0], srcs[1], dsts[1], lens[1]));
                         } else if (n == 3 && lens[0] == lens[1] && lens[1] == lens[2]) {
                                 fn = "kasumi_f8_3";
-                                IMB_KASUMI_F8_3_BUFFER(M, k0, ivs[0], ivs[1], ivs[2], srcs[0], dsts[0], srcs[1], dsts[1], srcs[2], dsts[2],
-                                                       lens[0]);
+                                LIBCALL(IMB_KASUMI_F8_3_BUFFER(M, k0, ivs[0], ivs[1], ivs[2], srcs[0], dsts[0], srcs[1], dsts[1], srcs[2], dsts[2],
+                                                       lens[0]));
                         } else if (n == 4 && lens[0] == lens[1] && lens[1] == lens[2] && lens[2] == lens[3]) {
                                 fn = "kasumi_f8_4";
-                                IMB_KASUMI_F8_4_BUFFER(M, k0, ivs[0], ivs[1], ivs[2], ivs[3], srcs[0], dsts[0], srcs[1], dsts[1], srcs[2],
-                                                       dsts[2], srcs[3], dsts[3], lens[0]);
+                                LIBCALL(IMB_KASUMI_F8_4_BUFFER(M, k0, ivs[0], ivs[1], ivs[2], ivs[3], srcs[0], dsts[0], srcs[1], dsts[1], srcs[2],
+                                                       dsts[2], srcs[3], dsts[3], lens[0]));
                         } else
-                                IMB_KASUMI_F8_N_BUFFER(M, k0, ivs2, srcs2, dsts2, lens2, (uint32_t) n);
+                                LIBCALL(IMB_KASUMI_F8_N_BUFFER(M, k0, ivs2, srcs2, dsts2, lens2, (uint32_t) n));
                         for (int i = 0; i < n; i++) {
-                                uint8_t *one = malloc(lens[i] + 64);
-                                IMB_KASUMI_F8_1_BUFFER(M, k0, ivs[i], srcs[i], one, lens[i]);
+                                uint8_t *one = out_alloc(lens[i]);
+                                LIBCALL(IMB_KASUMI_F8_1_BUFFER(M, k0, ivs[i], srcs[i], one, lens[i]));
                                 if (memcmp(one, dsts[i], lens[i]) != 0)
                                         same = 0;
-                                free(one);
+                                out_free(one);
                         }
                         if (memcmp(dsts[0], zj[0].dst, lens[0]) != 0)
                                 same = 0;
                         for (int i = 0; i < n; i++) {
-                                free(dsts[i]);
+                                out_free(dsts[i]);
                                 hx_job_free(&zj[i]);
                         }
                         log_direct(fn, "KASUMIE", n, same, st);
@@ -805,14 +837,14 @@ nbuf_all(hx_rng *g, int reps)
                         sp.coff = 0;
                         sp.inplace = 0;
                         int st = job_result("SNOW3GE", &sp, &j);
-                        uint8_t *out = calloc(1, sp.len + 64);
-                        IMB_SNOW3G_F8_1_BUFFER_BIT(M, j.tmpl.enc_keys, j.iv, j.src_snapshot, out, (uint32_t) j.tmpl.msg_len_to_cipher_in_bits, 0);
+                        uint8_t *out = out_alloc(sp.len);
+                        LIBCALL(IMB_SNOW3G_F8_1_BUFFER_BIT(M, j.tmpl.enc_keys, j.iv, IN_OF(&j), out, (uint32_t) j.tmpl.msg_len_to_cipher_in_bits, 0));
                         const uint32_t nb = (uint32_t) j.tmpl.msg_len_to_cipher_in_bits / 8, rem = (uint32_t) j.tmpl.msg_len_to_cipher_in_bits % 8;
                         int same = memcmp(out, j.dst, nb) == 0;
                         if (rem && ((out[nb] ^ j.dst[nb]) & (uint8_t) (0xff << (8 - rem))))
                                 same = 0;
                         log_direct("snow3g_f8_1_bit", "SNOW3GE", 1, same, st);
-                        free(out);
+                        out_free(out);
                         hx_job_free(&j);
                 }
                 /* --- GMAC init / update / finalize in pieces = the GMAC job --- */
@@ -824,24 +856,24 @@ nbuf_all(hx_rng *g, int reps)
                         int st = job_result(gk[w], &sp, &j);
                         struct gcm_context_data ctx;
                         uint8_t tag[16] = { 0 };
-                        const uint8_t *src = j.src_snapshot + sp.hoff;
+                        const uint8_t *src = IN_OF(&j) + sp.hoff;
                         const uint64_t cut = sp.hlen ? hx_below(g, sp.hlen + 1) : 0;
                         const struct gcm_key_data *key = j.tmpl.u.GMAC._key;
                         if (w == 0) {
-                                IMB_AES128_GMAC_INIT(M, key, &ctx, j.tmpl.u.GMAC._iv, j.tmpl.u.GMAC.iv_len_in_bytes);
-                                IMB_AES128_GMAC_UPDATE(M, key, &ctx, src, cut);
-                                IMB_AES128_GMAC_UPDATE(M, key, &ctx, src + cut, sp.hlen - cut);
-                                IMB_AES128_GMAC_FINALIZE(M, key, &ctx, tag, sp.taglen);
+                                LIBCALL(IMB_AES128_GMAC_INIT(M, key, &ctx, j.tmpl.u.GMAC._iv, j.tmpl.u.GMAC.iv_len_in_bytes));
+                                LIBCALL(IMB_AES128_GMAC_UPDATE(M, key, &ctx, src, cut));
+                                LIBCALL(IMB_AES128_GMAC_UPDATE(M, key, &ctx, src + cut, sp.hlen - cut));
+                                LIBCALL(IMB_AES128_GMAC_FINALIZE(M, key, &ctx, tag, sp.taglen));
                         } else if (w == 1) {
-                                IMB_AES192_GMAC_INIT(M, key, &ctx, j.tmpl.u.GMAC._iv, j.tmpl.u.GMAC.iv_len_in_bytes);
-                                IMB_AES192_GMAC_UPDATE(M, key, &ctx, src, cut);
-                                IMB_AES192_GMAC_UPDATE(M, key, &ctx, src + cut, sp.hlen - cut);
-                                IMB_AES192_GMAC_FINALIZE(M, key, &ctx, tag, sp.taglen);
+                                LIBCALL(IMB_AES192_GMAC_INIT(M, key, &ctx, j.tmpl.u.GMAC._iv, j.tmpl.u.GMAC.iv_len_in_bytes));
+                                LIBCALL(IMB_AES192_GMAC_UPDATE(M, key, &ctx, src, cut));
+                                LIBCALL(IMB_AES192_GMAC_UPDATE(M, key, &ctx, src + cut, sp.hlen - cut));
+                                LIBCALL(IMB_AES192_GMAC_FINALIZE(M, key, &ctx, tag, sp.taglen));
                         } else {
-                                IMB_AES256_GMAC_INIT(M, key, &ctx, j.tmpl.u.GMAC._iv, j.tmpl.u.GMAC.iv_len_in_bytes);
-                                IMB_AES256_GMAC_UPDATE(M, key, &ctx, src, cut);
-                                IMB_AES256_GMAC_UPDATE(M, key, &ctx, src + cut, sp.hlen - cut);
-                                IMB_AES256_GMAC_FINALIZE(M, key, &ctx, tag, sp.taglen);
+                                LIBCALL(IMB_AES256_GMAC_INIT(M, key, &ctx, j.tmpl.u.GMAC._iv, j.tmpl.u.GMAC.iv_len_in_bytes));
+                                LIBCALL(IMB_AES256_GMAC_UPDATE(M, key, &ctx, src, cut));
+                                LIBCALL(IMB_AES256_GMAC_UPDATE(M, key, &ctx, src + cut, sp.hlen - cut));
+                                LIBCALL(IMB_AES256_GMAC_FINALIZE(M, key, &ctx, tag, sp.taglen));
                         }
                         log_direct("gmac_stream", gk[w], 2, memcmp(tag, j.tag, sp.taglen) == 0, st);
                         hx_job_free(&j);
@@ -854,7 +886,7 @@ nbuf_all(hx_rng *g, int reps)
                         hx_force_len = -1;
                         int st = job_result("CFB256E", &sp, &j);
                         uint8_t out[16];
-                        IMB_AES256_CFB_ONE(M, out, j.src_snapshot + sp.coff, j.iv, j.tmpl.enc_keys, 16);
+                        LIBCALL(IMB_AES256_CFB_ONE(M, out, IN_OF(&j) + sp.coff, j.iv, j.tmpl.enc_keys, 16));
                         log_direct("cfb256_one", "CFB256E", 1, memcmp(out, j.dst, 16) == 0, st);
                         hx_job_free(&j);
                 }
@@ -886,7 +918,9 @@ static void
 hec_all(hx_rng *g, int reps)
 {
         for (int it = 0; it < reps * 40; it++) {
-                uint8_t h8[8], h4[4];
+                uint8_t h8s[8], h4s[4];
+                uint8_t *h8 = g_guard ? ga_alloc(8, 1, g_place, "hec_hdr64", 0) : h8s;
+                uint8_t *h4 = g_guard ? ga_alloc(4, 1, g_place, "hec_hdr32", 0) : h4s;
                 uint64_t r = hx_rand(g);
                 if (it % 5 == 0)
                         r &= hx_rand(g) & hx_rand(g); /* sparse headers */
@@ -900,8 +934,8 @@ hec_all(hx_rng *g, int reps)
                         be4 = (be4 << 8) | h4[i];
                 const uint64_t want8 = hec_ref(be8, 64);
                 const uint32_t want4 = (uint32_t) hec_ref(be4, 32);
-                uint64_t got8 = IMB_HEC_64(M, h8);
-                uint32_t got4 = IMB_HEC_32(M, h4);
+                uint64_t got8 = LIBVAL(IMB_HEC_64(M, h8));
+                uint32_t got4 = LIBVAL(IMB_HEC_32(M, h4));
                 uint8_t w8[8], w4[4];
                 for (int i = 0; i < 8; i++)
                         w8[i] = (uint8_t) (want8 >> (56 - 8 * i));
@@ -909,6 +943,8 @@ hec_all(hx_rng *g, int reps)
                         w4[i] = (uint8_t) (want4 >> (24 - 8 * i));
                 log_direct("hec_64", "HEC", 1, memcmp(&got8, w8, 8) == 0, IMB_STATUS_COMPLETED);
                 log_direct("hec_32", "HEC", 1, memcmp(&got4, w4, 4) == 0, IMB_STATUS_COMPLETED);
+                if (g_guard)
+                        ga_reset();
         }
         /* the PON encrypt job writes the same HEC into the XGEM header of its frame */
         for (int it = 0; it < reps * 4; it++) {
@@ -916,7 +952,7 @@ hec_all(hx_rng *g, int reps)
                 hx_job j;
                 hx_spec_from_kind("PONE", g, &sp);
                 int st = job_result("PONE", &sp, &j);
-                uint64_t got = IMB_HEC_64(M, j.src_snapshot + sp.hoff);
+                uint64_t got = LIBVAL(IMB_HEC_64(M, IN_OF(&j) + sp.hoff));
                 log_direct("hec_64_vs_pon_job", "PONE", 1, memcmp(&got, j.src + sp.hoff, 8) == 0, st);
                 hx_job_free(&j);
                 ga_reset();
@@ -945,7 +981,7 @@ oneblock_all(hx_rng *g, int reps)
                         SHA1_Init(&c);
                         SHA1_Transform(&c, blk);
                         uint32_t w[5] = { c.h0, c.h1, c.h2, c.h3, c.h4 };
-                        IMB_SHA1_ONE_BLOCK(M, blk, out);
+                        LIBCALL(IMB_SHA1_ONE_BLOCK(M, blk, out));
                         same = memcmp(out, w, 20) == 0;
                         log_direct("sha1_one_block", "+SHA1", 1, same, IMB_STATUS_COMPLETED);
                         break;
@@ -954,7 +990,7 @@ oneblock_all(hx_rng *g, int reps)
                         SHA256_CTX c;
                         SHA224_Init(&c);
                         SHA256_Transform(&c, blk);
-                        IMB_SHA224_ONE_BLOCK(M, blk, out);
+                        LIBCALL(IMB_SHA224_ONE_BLOCK(M, blk, out));
                         same = memcmp(out, c.h, 32) == 0;
                         log_direct("sha224_one_block", "+SHA224", 1, same, IMB_STATUS_COMPLETED);
                         break;
@@ -963,7 +999,7 @@ oneblock_all(hx_rng *g, int reps)
                         SHA256_CTX c;
                         SHA256_Init(&c);
                         SHA256_Transform(&c, blk);
-                        IMB_SHA256_ONE_BLOCK(M, blk, out);
+                        LIBCALL(IMB_SHA256_ONE_BLOCK(M, blk, out));
                         same = memcmp(out, c.h, 32) == 0;
                         log_direct("sha256_one_block", "+SHA256", 1, same, IMB_STATUS_COMPLETED);
                         break;
@@ -972,7 +1008,7 @@ oneblock_all(hx_rng *g, int reps)
                         SHA512_CTX c;
                         SHA384_Init(&c);
                         SHA512_Transform(&c, blk);
-                        IMB_SHA384_ONE_BLOCK(M, blk, out);
+                        LIBCALL(IMB_SHA384_ONE_BLOCK(M, blk, out));
                         same = memcmp(out, c.h, 64) == 0;
                         log_direct("sha384_one_block", "+SHA384", 1, same, IMB_STATUS_COMPLETED);
                         break;
@@ -981,7 +1017,7 @@ oneblock_all(hx_rng *g, int reps)
                         SHA512_CTX c;
                         SHA512_Init(&c);
                         SHA512_Transform(&c, blk);
-                        IMB_SHA512_ONE_BLOCK(M, blk, out);
+                        LIBCALL(IMB_SHA512_ONE_BLOCK(M, blk, out));
                         same = memcmp(out, c.h, 64) == 0;
                         log_direct("sha512_one_block", "+SHA512", 1, same, IMB_STATUS_COMPLETED);
                         break;
@@ -991,7 +1027,7 @@ oneblock_all(hx_rng *g, int reps)
                         MD5_Init(&c);
                         MD5_Transform(&c, blk);
                         uint32_t w[4] = { c.A, c.B, c.C, c.D };
-                        IMB_MD5_ONE_BLOCK(M, blk, out);
+                        LIBCALL(IMB_MD5_ONE_BLOCK(M, blk, out));
                         same = memcmp(out, w, 16) == 0;
                         log_direct("md5_one_block", "+HMACMD5", 1, same, IMB_STATUS_COMPLETED);
                         break;
@@ -1058,6 +1094,8 @@ drv_entry(int argc, char **argv)
                         variant = argv[++i];
                 else if (!strcmp(argv[i], "--reps"))
                         reps = atoi(argv[++i]);
+                else if (!strcmp(argv[i], "--guard"))
+                        g_guard = atoi(argv[++i]);
                 else if (!strcmp(argv[i], "--seed"))
                         seed = strtoull(argv[++i], NULL, 0);
         }
@@ -1076,6 +1114,22 @@ drv_entry(int argc, char **argv)
                                              "+HMAC256", "+HMAC384", "+HMAC512", "+SHA1", "+SHA224", "+SHA256", "+SHA384",
                                              "+SHA512", "+CMAC", "+CMACBIT", "+CMAC256" };
         static const int sizes[] = { 1, 2, 3, 4, 7, 8, 9, 15, 16, 17, 33, 128 };
+        if (g_guard) {
+                /* C07: the direct calls only, every object end-flush, then start-flush, against inaccessible pages */
+                for (int pl = 0; pl < 2; pl++) {
+                        g_place = pl ? GA_START : GA_END;
+                        direct_all(&g, reps);
+                        quic_all(&g, reps);
+                        nbuf_all(&g, reps);
+                        hec_all(&g, reps);
+                }
+                tr_begin("EntryDone");
+                tr_int("items", nitems);
+                tr_end();
+                fclose(hx_trace);
+                fprintf(stderr, "{\"items\":%ld,\"abi_viol\":%d}\n", nitems, hx_abi_viol_total);
+                return 0;
+        }
         for (unsigned k = 0; k < sizeof(burst_kinds) / sizeof(burst_kinds[0]); k++)
                 for (unsigned s = 0; s < sizeof(sizes) / sizeof(sizes[0]); s++)
                         sync_burst(burst_kinds[k], sizes[s], &g);
